@@ -772,7 +772,6 @@ CMP_SHAPES = [("type-has-name", "plain", "n"), ("type-has-twin", "plain", "t"), 
               #  the class, so instances of such classes already fail every by-name request with TypeError)
               ("instance-hook-allows-name", "inst-hook-allow", "nt"), ("instance-hook-refuses", "inst-hook-deny", "nt"),
               ("instance-hook-refuses-ValueError", "inst-hook-deny-valueerror", "n"),
-              ("instance-hook-allows-missing", "inst-hook-allow", ""),
               ("restricted-view", "view", "nt"), ("service-instance", "service", "nt")]
 CMP_KIND = dict((k, (kd, hs)) for k, kd, hs in CMP_SHAPES)
 
